@@ -851,7 +851,7 @@ func genC06(r *Rng, tier string, emit func(string, Tok)) {
 	// the last one received: only the bytes tell the packet from a duplicate), clear and scrambled
 	// (transport_scrambling_control 2 / 3) PIDs, other PIDs interleaved
 	for k := 0; k < scale(tier, 12, 120); k++ {
-		m := genRefStream(r, streamOpts{PESPIDs: 2, UnitsPerPID: 3, MaxPES: 300, Tables: true, PESTotals: []int{184 * r.Range(20, 30), 184 * r.Range(20, 30), 184 * r.Range(2, 5)}})
+		m := genRefStream(r, streamOpts{PESPIDs: 2, UnitsPerPID: 3, MaxPES: 300, Tables: true, PESTotals: []int{184 * r.Range(20, 30), 184 * r.Range(20, 30), 184 * r.Range(2, 5)}, Unbounded: k%2 == 0})
 		data := m.bytes()
 		np := len(data) / 188
 		pid0 := m.PIDs[len(m.PIDs)-1]
@@ -1228,10 +1228,14 @@ func oracleC06Faulted(s scenario, run *demuxRun) string {
 			}
 			orphan, inOrphan = nil, false
 		}
+		var prevPk pk
 		for _, p := range pks {
-			if prev >= 0 && p.cc == prev {
+			// a duplicate repeats the previous packet (ISO 13818-1 2.4.3.3); the same counter on a different packet
+			// is what a loss of exactly 15 packets looks like
+			if prev >= 0 && p.cc == prev && p.pusi == prevPk.pusi && bytes.Equal(p.payload, prevPk.payload) {
 				continue // duplicate
 			}
+			prevPk = p
 			gap := prev >= 0 && p.cc != (prev+1)&15
 			first := prev < 0
 			prev = p.cc
